@@ -19,6 +19,7 @@ inductive PErr where
   | nexus          -- NexusReaderError and its subclasses other than the two below
   | tooManyTaxa    -- NexusReader.TooManyTaxaError: a label beyond the declared NTAX (TAXLABELS, a MATRIX row)
   | undefinedTaxon -- NexusReader.UndefinedTaxonError: a TRANSLATE label the (locked) namespace does not have
+  | outOfFuel      -- not an error of the library: the step budget of the Newick machine (`runF`) is used up; unreachable (`newick_fuel_suffices`)
   | data           -- DataParseError raised by the PHYLIP / FASTA readers
 deriving Repr, DecidableEq
 
@@ -335,13 +336,75 @@ theorem step_decreases (k : Cfg) (st st' : NState) (h : step k st = .next st') :
   · rename_i hph
     exact stepLab_decreases k st st' hph h
 
-/-- iterate `step` to completion -/
+/-- iterate `step` with a budget: every machine step takes one unit; `none` = the budget is used up -/
+def runF (k : Cfg) : Nat → NState → Option NDone
+  | 0, _ => none
+  | f + 1, st =>
+    match step k st with
+    | .done r => some r
+    | .next st' => runF k f st'
+
+/-- the step budget of a tree statement: linear in the unread input (every token is at least one character) -/
+def newickFuel (st : NState) : Nat := 3 * st.rest.length + 3
+
+/-- iterate `step` to completion: the fuelled loop with the linear budget (the fallback is unreachable, `newick_fuel_suffices`) -/
 def run (k : Cfg) (st : NState) : NDone :=
-  match h : step k st with
-  | .done r => r
-  | .next st' => run k st'
-termination_by st.measure
-decreasing_by exact step_decreases k st st' h
+  match runF k (newickFuel st) st with
+  | some r => r
+  | none => .err .outOfFuel
+
+theorem measure_lt_fuel (st : NState) : st.measure < newickFuel st := by
+  have := rank_le st
+  unfold NState.measure newickFuel; omega
+
+/-- any budget above the measure gives the same result, and it is a result -/
+theorem runF_stable (k : Cfg) : ∀ (n : Nat) (st : NState) (f1 f2 : Nat), st.measure ≤ n → st.measure < f1 → st.measure < f2 →
+    runF k f1 st = runF k f2 st ∧ runF k f1 st ≠ none := by
+  intro n
+  induction n with
+  | zero =>
+    intro st f1 f2 hm h1 h2
+    cases f1 with
+    | zero => omega
+    | succ f1 =>
+      cases f2 with
+      | zero => omega
+      | succ f2 =>
+        simp only [runF]
+        cases hs : step k st with
+        | done r => simp
+        | next st' => have := step_decreases k st st' hs; omega
+  | succ n ih =>
+    intro st f1 f2 hm h1 h2
+    cases f1 with
+    | zero => omega
+    | succ f1 =>
+      cases f2 with
+      | zero => omega
+      | succ f2 =>
+        simp only [runF]
+        cases hs : step k st with
+        | done r => simp
+        | next st' =>
+          have := step_decreases k st st' hs
+          exact ih st' f1 f2 (by omega) (by omega) (by omega)
+
+/-- the unfolding equation of `run` (what the fuel-free definition by well-founded recursion said) -/
+theorem run_eq (k : Cfg) (st : NState) :
+    run k st = match step k st with
+      | .done r => r
+      | .next st' => run k st' := by
+  have hf : newickFuel st = (newickFuel st - 1) + 1 := by unfold newickFuel; omega
+  unfold run
+  rw [hf]
+  simp only [runF]
+  cases hs : step k st with
+  | done r => rfl
+  | next st' =>
+    have hd := step_decreases k st st' hs
+    have hm := measure_lt_fuel st
+    have := (runF_stable k st'.measure st' (newickFuel st - 1) (newickFuel st') (Nat.le_refl _) (by omega) (measure_lt_fuel st')).1
+    simp only [this]
 
 /-- outcome of `_parse_tree_statement` -/
 inductive StmtRes where
